@@ -1,6 +1,85 @@
+import BufrProofs.RefCodec
 import BufrSpec.RefEncode
+/-
+  C04 — The decoder accepts every well-formed FM 94 message and returns the encoded values.
+
+  Property theorems only (helper lemmas: BufrProofs/Codec.lean, RefCodec.lean).  Model:
+  BufrModel/Decode.lean; inputs the library never produces itself come from the reference encoder
+  BufrSpec/RefEncode.lean (`spec.reencode`, props/c04.py), each checked against the reference decoder.
+
+  Proved at full strength, for *every* bit string of the stated form (not only the library's own
+  output): a compressed numeric column with ANY local reference value and ANY increment width from 1
+  up to the element width — in particular non-minimal widths — decodes to `R0 + increment`, all ones
+  meaning missing; a constant column decodes to R0 whatever R0 is; a request for subsets `from..to`
+  returns exactly that slice and the cursor ends after the column; one uncompressed element is read
+  from exactly its bits; and on all these inputs the library's column reader and the reference
+  decoder agree.  The walk over a whole template is `C01_static_roundtrip` (static templates);
+  message-level freedoms (Section 2, headers, odd lengths) are C06's theorems.
+-/
 namespace Bufr.C04
 open Bufr Bufr.Spec
-/-- placeholder while the decoder refinement theorems are written -/
+
+/-- **constant column**, arbitrary local reference value -/
+theorem C04_const_column (r : R) (cb : Node) (col : List Node) (g : Range) (r0 : Nat)
+    (rest : List Bool) (hI : RInv r) (hnb : 1 ≤ cb.enc.nbits ∧ cb.enc.nbits ≤ 64)
+    (hb : r.bits = bitsMSB cb.enc.nbits.toNat r0 ++ bitsMSB 6 0 ++ rest) :
+    ∃ r', getNumericCompressed r (cb :: col) g =
+        some (r', (cb :: col).map (fun n => setBitsValue n (r0 % 2^cb.enc.nbits.toNat))) ∧
+      r'.bits = rest ∧ RInv r' :=
+  getNumericCompressed_const r cb col g r0 rest hI hnb hb
+
+/-- **listed column**, arbitrary local reference value, arbitrary (also non-minimal) increment
+width `1 ≤ NBINC ≤ element width`, any slice request -/
+theorem C04_listed_column (r : R) (cb : Node) (col : List Node) (g : Range) (r0 k : Nat)
+    (incs : List Nat) (rest : List Bool) (hI : RInv r) (hnb : 1 ≤ cb.enc.nbits ∧ cb.enc.nbits ≤ 64)
+    (hk0 : 0 < k) (hk : (k : Int) ≤ cb.enc.nbits) (hk63 : k < 64) (hg : g.OK) (hlen : incs.length = g.nsub)
+    (hb : r.bits = bitsMSB cb.enc.nbits.toNat r0 ++ bitsMSB 6 k ++ incs.flatMap (bitsMSB k) ++ rest) :
+    ∃ r', getNumericCompressed r (cb :: col) g =
+        some (r', zipWithNodes (fun n v => setBitsValue n
+                    (if v = missingIvalue k then missingIvalue cb.enc.nbits else v + r0 % 2^cb.enc.nbits.toNat))
+                  (cb :: col) ((g.slice incs).map (· % 2^k))) ∧
+      r'.bits = rest ∧ RInv r' :=
+  getNumericCompressed_listed r cb col g r0 k incs rest hI hnb hk0 hk hk63 hg hlen hb
+
+/-- the reference decoder on the same bits (whole dataset): the same values, `R0 + increment` or
+all ones — so on every well-formed column the library and the regulation agree -/
+theorem C04_listed_column_spec (w k r0 : Nat) (incs : List Nat) (rest : List Bool)
+    (hk0 : 0 < k) (hk : k < 64) (hr0 : r0 < 2^w)
+    (hfit : ∀ i ∈ incs, i % 2^k ≠ allOnes k → r0 + i % 2^k ≤ allOnes w) :
+    readColumn w incs.length (bitsMSB w r0 ++ bitsMSB 6 k ++ incs.flatMap (bitsMSB k) ++ rest) =
+      some (incs.map (fun i => if i % 2^k = allOnes k then allOnes w else r0 + i % 2^k), rest) := by
+  rw [List.append_assoc, List.append_assoc]
+  unfold readColumn
+  have hk6 : k % 2^6 = k := Nat.mod_eq_of_lt (by omega)
+  simp only [takeBits_view, Nat.mod_eq_of_lt hr0, hk6, Option.bind_eq_bind, Option.bind_some, bind, pure]
+  rw [if_neg (by omega)]
+  simp only [takeIncs_view, Option.bind_some, List.map_map]
+  have hall : ((incs.map ((fun i => if i = allOnes k then allOnes w else r0 + i) ∘ (· % 2^k))).all
+      fun x => decide (x ≤ allOnes w)) = true := by
+    rw [List.all_eq_true]
+    intro v hv
+    obtain ⟨i, hi, rfl⟩ := List.mem_map.mp hv
+    simp only [Function.comp, decide_eq_true_eq]
+    by_cases h : i % 2^k = allOnes k
+    · simp [h]
+    · simp only [h, if_false]; exact hfit i hi h
+  rw [if_pos hall]
+  rfl
+
+/-- **one uncompressed element** -/
+theorem C04_element (r : R) (hI : RInv r) (n m : Node) (rest : List Bool) (hl : SameLayout n m)
+    (hns : m.flags.skipped = false) (hw : widthOK m) (hb : r.bits = nodeBits m ++ rest) :
+    ∃ r', getDescValue r n = some (r', readBack n m) ∧ r'.bits = rest ∧ RInv r' :=
+  getDescValue_view r hI n m rest hl hns hw.1 hw.2 hb
+
+/-- the reference encoder never asks for less than one bit per increment -/
 theorem C04_minNbinc_pos (d : Nat) : 1 ≤ minNbinc d := by unfold minNbinc; omega
+
+/-! ### Non-vacuity -/
+
+/-- a 12-bit element, three subsets, R0 = 100 (not the minimum), NBINC = 9 (not minimal), one missing -/
+example : readColumn 12 3 (bitsMSB 12 100 ++ bitsMSB 6 9 ++ [5, 511, 300].flatMap (bitsMSB 9) ++ [true]) =
+    some ([105, 4095, 400], [true]) := by decide +kernel
+example : (⟨3, 0, 0⟩ : Range).OK := Or.inl (by decide)
+
 end Bufr.C04
